@@ -48,8 +48,11 @@ WellFormedPath(key) == \A i \in DOMAIN SplitOn(key, 46) : WellFormedSeg(SplitOn(
 (* ordinary member name, so the descent still says what the key addresses                        *)
 (* ... or `name[text]` whose index text is not a number (`tags[]`, `tags[first]`, `list[*]`):  *)
 (* there is no such element, the field is missing - never element 0, never the array itself     *)
+(* ... including a signed index (`a[+1]`) and a second index group (`a[1][2]`: the text between  *)
+(* the first `[` and the last `]` is `1][2`, not a number): such a key is never another spelling *)
+(* of `a[1]`                                                                                   *)
 BadIndexSeg(seg) == IsIndexed(seg) /\ PlainName(SegName(seg)) /\ ~AllDigits(SegIdxText(seg))
-                    /\ \A i \in DOMAIN SegIdxText(seg) : SegIdxText(seg)[i] \notin {46, 91, 93}
+                    /\ \A i \in DOMAIN SegIdxText(seg) : SegIdxText(seg)[i] # 46
 CheckablePath(key) == \A i \in DOMAIN SplitOn(key, 46) :
                          LET seg == SplitOn(key, 46)[i] IN seg = <<>> \/ WellFormedSeg(seg) \/ BadIndexSeg(seg)
 
@@ -87,10 +90,18 @@ EngWalk(root, v, segs, dev) ==
     IF ~IsNone(v) /\ v.t # "O" THEN NONE
     ELSE IF IsIndexed(seg)
     THEN LET a == Member(base, SegName(seg))
-             i == DigVal(ToDigits(StripLead(SegIdxText(seg)))) IN
-         IF ~AllDigits(SegIdxText(seg)) THEN NONE
+             (* the index text the code parses.  Named deviations of the unrepaired code:            *)
+             (*  "index_first_group"  k.split('[') looks at the FIRST bracket group only, so          *)
+             (*                       `a[1][2]` is read as `a[1]`                                     *)
+             (*  "index_plus"         usize::from_str accepts a leading `+`                           *)
+             raw == SegIdxText(seg)
+             cut == {j \in DOMAIN raw : raw[j] = 93}
+             grp == IF "index_first_group" \in dev /\ cut # {} THEN SubSeq(raw, 1, MinOf(cut) - 1) ELSE raw
+             txt == IF "index_plus" \in dev /\ grp # <<>> /\ grp[1] = 43 THEN Tail(grp) ELSE grp
+             i == DigVal(ToDigits(StripLead(txt))) IN
+         IF ~AllDigits(txt) THEN NONE
          ELSE IF a.t # "A" THEN NONE
-         ELSE LET nx == IF Len(StripLead(SegIdxText(seg))) <= 4 /\ i + 1 <= Len(a.vs) THEN a.vs[i + 1] ELSE NONE IN
+         ELSE LET nx == IF Len(StripLead(txt)) <= 4 /\ i + 1 <= Len(a.vs) THEN a.vs[i + 1] ELSE NONE IN
               IF stop(nx) THEN NONE ELSE EngWalk(root, nx, Tail(segs), dev)
     ELSE LET m == Member(base, seg) IN
          IF IsNone(v) /\ IsNone(m) THEN NONE              \* root get failed: return None
